@@ -28,7 +28,7 @@ from netqasm.sdk.classical_communication.thread_socket.socket import ThreadSocke
 HUB_FILE = SH.__file__
 SHARED = ("_open_sockets", "_remote_sockets", "_messages", "_recv_callbacks", "_conn_lost_callbacks", "_lock")
 METHODS = ("connect", "_add_callbacks", "is_connected", "disconnect", "_wait_for_remote", "send", "recv")
-LOCK_KINDS = ("sLock", "rLock", "rLock2", "dLock")
+LOCK_KINDS = ("sLock", "rLock", "rLock2", "dLock", "xLock")
 # loop heads: reaching them again without any change of shared state is a spin iteration
 SPIN_KINDS = ("cWaitOpen", "rLock")
 
@@ -146,6 +146,10 @@ def locate(path=None, strict=True):
             if kind is None:
                 if touches and "_logger" not in h and strict:
                     raise TieBroken("unmodelled access to shared state in %s line %d: %s" % (mname, st.lineno, h))
+                if isinstance(st, ast.With) and "self._lock" in h:
+                    # non-strict mode (tie already broken): still never run into a held lock
+                    line_kind[st.lineno] = "xLock"
+                    with_lines.add(st.lineno)
                 continue
             if st.lineno in line_kind and strict:
                 raise TieBroken("two steps on line %d" % st.lineno)
@@ -226,6 +230,8 @@ class Worker(threading.Thread):
         self.cur_op = None
         self.inflight = None
         self.held = set()
+        self.cur_nonblock = False
+        self.op_start = 0
         self.nb_seen = []       # (key, queue length at the start of a non-blocking recv, outcome)
 
     # -- tracing
@@ -282,6 +288,8 @@ class Worker(threading.Thread):
         key = (node_name(self.tid), node_name(rn), sid)
         kj = key_json(key)
         self.cur_key, self.cur_op, self.held = kj, kind, set()
+        self.cur_nonblock = kind == "r" and not op[3]
+        self.op_start = self.count
         structured = s.structured(self.tid, rn, sid)
         if kind == "c":
             sock = Sock(s, node_name(self.tid), node_name(rn), socket_id=sid, use_callbacks=bool(op[3]))
@@ -367,7 +375,7 @@ class Scheduler:
         c = w.count
         w.sem.release()
         with self.cv:
-            if not self.cv.wait_for(lambda: w.count > c or w.done, timeout=10):
+            if not self.cv.wait_for(lambda: w.count > c or w.done, timeout=4):
                 raise Stuck("thread %d did not come back from line %s" % (tid, w.line))
         if w.error is not None:
             raise w.error
@@ -465,6 +473,8 @@ def run_case(progs, policy, structured_ids=(), max_steps=400):
             for k in sn["open"]:
                 ever_open_at.setdefault(tuple(k), i)
         stuck_in_connect = [(w.tid, w.cur_key) for w in sc.workers if not w.done and w.cur_op == "c"]
+        nb_blocked = [(w.tid, w.cur_key, w.count - w.op_start) for w in sc.workers
+                      if not w.done and w.cur_nonblock and w.count - w.op_start >= 8]
         workers = sc.workers
     finally:
         final_queues = sc.finish()
@@ -472,7 +482,7 @@ def run_case(progs, policy, structured_ids=(), max_steps=400):
             "final_queues": final_queues, "delivery": sc.delivery, "cb_store": sc.cb_store,
             "res": [w.res for w in workers], "inflight": [w.inflight for w in workers],
             "nb_seen": [x for w in workers for x in w.nb_seen],
-            "stuck_in_connect": stuck_in_connect, "ever_open_at": ever_open_at,
+            "stuck_in_connect": stuck_in_connect, "nb_blocked": nb_blocked, "ever_open_at": ever_open_at,
             "steps_of": [schedule.count(t) for t in range(len(progs))]}
 
 
@@ -521,6 +531,9 @@ def oracle(case, settle_steps):
         if q0 > 0 and out != "got":
             fails.append({"what": "non-blocking recv on %s reported %s although %d message(s) were queued"
                                   % (kj, out, q0), "key": kj})
+    for tid, kj, n in case["nb_blocked"]:
+        fails.append({"what": "non-blocking recv on %s by thread %d has not returned after %d steps "
+                              "(it must report emptiness, not block)" % (kj, tid, n), "key": kj})
     for tid, kj in case["stuck_in_connect"]:
         peer = tuple(rkey(tuple(kj)))
         at = case["ever_open_at"].get(peer)
@@ -715,9 +728,18 @@ def worker_random(args):
         rng = random.Random(seed)
         driver = common.Driver()
         cases = []
+        n_stuck = 0
         for _ in range(n_cases):
             progs, st = gen_programs(rng)
-            cases.append(run_case(progs, random_policy(rng, rng.choice([20, 40, n_main]), settle), st, max_steps=600))
+            try:
+                cases.append(run_case(progs, random_policy(rng, rng.choice([20, 40, n_main]), settle), st,
+                                      max_steps=600))
+            except Stuck as e:
+                n_stuck += 1
+                summary["disagreements"].append({"stream": "hub.scheduler", "input": {"progs": progs},
+                                                 "model": "every step returns", "code": "Stuck: %s" % e})
+                if n_stuck >= 2:
+                    break
             if len(cases) >= 50:
                 _check_cases(cases, driver, summary, settle)
                 cases = []
@@ -743,7 +765,12 @@ def worker_explore(args):
             if time.time() > deadline:
                 break
             progs = build_pair(pa, pb)
-            cases, complete = explore(progs, (), max_preempt=max_preempt, deadline=deadline)
+            try:
+                cases, complete = explore(progs, (), max_preempt=max_preempt, deadline=deadline)
+            except Stuck as e:
+                summary["disagreements"].append({"stream": "hub.scheduler", "input": {"progs": progs},
+                                                 "model": "every step returns", "code": "Stuck: %s" % e})
+                break
             _check_cases(cases, driver, summary, 0)
             summary["pairs_complete" if complete else "pairs_partial"] += 1
         driver.close()
